@@ -679,7 +679,7 @@ func kindSweep(r *rep.Run) {
 			continue
 		}
 		sgetty.GetGettyClientHandlerInstance().OnMessage(ks, message.RpcMessage{ID: id, Type: message.GettyRequestTypeResponse, Codec: byte(codec.CodecTypeSeata), Body: k.rsp})
-		quiet.Spin(func() bool { return len(done) > 0 }, 3)
+		quiet.Settle(func() bool { return len(done) > 0 }, 20) // (twenty consecutive quiet observations before the caller counts as still waiting)
 		select {
 		case got := <-done:
 			if got.err != nil || fmt.Sprintf("%T", got.resp) != fmt.Sprintf("%T", k.rsp) {
